@@ -284,6 +284,9 @@ class AgentWorld(object):
         elif kind == 'REST':
             req = messages['@' + ev[1]]
             fn = lambda: s.effect(('rest',) + self.rest(*req))   # noqa
+        elif kind == 'MQ':
+            item = messages['@mq:' + ev[1]]
+            fn = lambda: self.handler.inter_mq.put(copy.deepcopy(item))   # noqa  (application queues a message; sent on the next KEEPALIVE)
         elif kind == 'WAIT':
             due = s.due_calls()
             if self.disconnecting() or (due and s.now + ev[1] > due[0].time + 1e-9):
